@@ -252,22 +252,22 @@ def target_to_drawing():
 
         @specs.add("get_width", 1)
         def _(env):
-            return [("one width per visited child", env.loc["widths"].len == env.i)]
+            return [("one width per visited child", env.unique(H.SymList, "widths").len == env.i)]
 
         @specs.add("get_width", 2)
         def _(env):
-            w = env.loc["widths"]
+            w = env.unique(H.SymList, "widths")
             j = z3.Int("j")
             return [("one width per visited child", w.len == env.i),
                     ("the widths are those of the children", z3.ForAll([j], z3.Implies(z3.And(0 <= j, j < env.i), z3.Select(w.arr, j) == Wf(child(st["n"], j)))))]
 
         @specs.add("get_height", 1)
         def _(env):
-            return [("one height per visited child", env.loc["heights"].len == env.i)]
+            return [("one height per visited child", env.unique(H.SymList, "heights").len == env.i)]
 
         @specs.add("get_height", 2)
         def _(env):
-            return [("one height per visited child", env.loc["heights"].len == env.i)]
+            return [("one height per visited child", env.unique(H.SymList, "heights").len == env.i)]
 
         def drawn_inv(env, cond):
             g = ghost()
